@@ -66,6 +66,64 @@ let dispatch (name : string) (a : string array) : string =
       | "water_viscosity" -> look (Tables.water_viscosity fN) Tables.water_viscosity_xlo Tables.water_viscosity_xhi (Tables.water_viscosity_tol fN)
       | "Arel_to_beta" -> look (Tables.coq_Arel_to_beta fN) Tables.coq_Arel_to_beta_xlo Tables.coq_Arel_to_beta_xhi (Tables.coq_Arel_to_beta_tol fN)
       | _ -> raise Not_found)
+  | "Pipeline.head" | "Pipeline.hg" | "Pipeline.totals" ->
+    (* synthetic oracles, the same closed forms the harness patches into the real classes *)
+    let qimin = get_num a in let rhol = get_num a in let rhom = get_num a in
+    let im d v = 0.011 *. v *. v /. d +. 0.02 /. (v +. 0.1) +. 0.001 *. d in
+    let il d v = 0.008 *. v *. v /. d in
+    let point p q w = let k = Float.of_int (int_of_nat p) in (40.0 +. 3.0 *. k -. (2.0 +. k) *. q *. q) *. (if w then rhol else rhom) in
+    let n = get_int a in
+    let secs = Stdlib.List.init n (fun _ ->
+      match next a with
+      | "P" -> let d = get_num a in let l = get_num a in let k = get_num a in let z = get_num a in Pipeline.Pipe (d, l, k, z)
+      | "U" -> Pipeline.PumpRef (nat_of_int (get_int a))
+      | x -> failwith ("section " ^ x)) in
+    let q = get_num a in
+    (match name with
+     | "Pipeline.head" ->
+       let (((hm, hl), pl), pm) = Pipeline.calc_system_head fN im il point rhol rhom secs q in
+       cat [out_num hm; out_num hl; out_num pl; out_num pm]
+     | "Pipeline.hg" ->
+       let ((locs, heads), elevs) = Pipeline.hydraulic_gradient fN im il point rhol rhom qimin secs q in
+       cat [out_list "loc" locs; out_list "head" heads; out_list "elev" elevs]
+     | _ ->
+       cat [out_num (Pipeline.total_length fN secs); out_num (Pipeline.total_K fN secs); out_num (Pipeline.total_lift fN secs);
+            string_of_int (int_of_nat (Pipeline.num_pipesections secs)); string_of_int (int_of_nat (Pipeline.num_pumps secs))])
+  | "PL.run" ->
+    (* Dp D50 salt Cv max_index | n sections | nops ops: cv x | slurry Dp D50 salt Cv mi | sD50 x | srhos x | sfluid b | sgen a b | head Q | hg *)
+    let dp = get_num a in let d50 = get_num a in let is_salt = get_bool a in let cv = get_num a in let mi = get_int a in
+    let n = get_int a in
+    let secs = Stdlib.List.init n (fun _ ->
+      match next a with
+      | "P" -> let d = get_num a in let l = get_num a in let k = get_num a in let z = get_num a in Pipeline.Pipe (d, l, k, z)
+      | "U" -> Pipeline.PumpRef (nat_of_int (get_int a))
+      | x -> failwith ("section " ^ x)) in
+    let point p q w rl rm = let k = Float.of_int (int_of_nat p) in (40.0 +. 3.0 *. k -. (2.0 +. k) *. q *. q) *. (if w then rl else rm) in
+    let pl = ref (PipelineSlurry.make fN true true secs (SlurryState.init fN dp d50 is_salt cv (nat_of_int mi))) in
+    let nops = get_int a in
+    let buf = Buffer.create 1024 in
+    let direct o = pl := { !pl with PipelineSlurry.slurry = fst (SlurryState.step fN true true (!pl).PipelineSlurry.slurry o) } in
+    for _ = 1 to nops do
+      (match next a with
+       | "cv" -> pl := PipelineSlurry.set_Cv_pl fN true true !pl (get_num a)
+       | "slurry" ->
+         let dp = get_num a in let d50 = get_num a in let sl = get_bool a in let cv = get_num a in let mi = get_int a in
+         pl := PipelineSlurry.set_slurry_pl fN true true !pl (SlurryState.init fN dp d50 sl cv (nat_of_int mi))
+       | "sD50" -> direct (SlurryState.SetD50 (get_num a))
+       | "srhos" -> direct (SlurryState.SetRhos (get_num a))
+       | "sfluid" -> direct (SlurryState.SetFluid (get_bool a))
+       | "sgen" -> let r15 = get_opt a in let r85 = get_opt a in direct (SlurryState.GenGSD (r15, r85))
+       | "update" -> pl := PipelineSlurry.update_slurries fN true true !pl
+       | "head" ->
+         let q = get_num a in
+         let (((hm, hl), pl_), pm) = PipelineSlurry.system_head fN true true point !pl q in
+         Buffer.add_string buf (" | " ^ cat [out_num hm; out_num hl; out_num pl_; out_num pm])
+       | "hg" -> pl := PipelineSlurry.after_hydraulic_gradient fN true true !pl
+       | x -> failwith ("op " ^ x));
+      Buffer.add_string buf (" D" ^ out_num (!pl).PipelineSlurry.slurry.SlurryState.sp.SlurryCalc.p_Dp
+                             ^ " n" ^ string_of_int (Stdlib.List.length (!pl).PipelineSlurry.slurries))
+    done;
+    Buffer.contents buf
   | "Fracs.create_fracs" ->
     let g = get_pairs a in
     let dp = get_num a in let nu = get_num a in let rhol = get_num a in let rhos = get_num a in
